@@ -172,6 +172,39 @@ def w_statistical(ctx, rng, i):
     ctx.case(("stat", n_pol, with_noise, round(G / 10), fs, wl), sample=dict(N=N, n_pol=n_pol, G=G, NF=NF, fs=fs, wavelength=wl, measured_over_documented=tot / want) if i < 4 else None)
 
 
+def w_short_records(ctx, rng, i):
+    """The ASE is Gaussian for *every* record length: over K calls on records of 1..5 samples the per-record ASE power must
+    fluctuate like a chi-square with 4n degrees of freedom (mean P, variance P^2/(2n)), the pooled quadratures must have Gaussian
+    kurtosis and the powers in the two polarisations must be uncorrelated. (A realisation rescaled to its nominal power passes every
+    long-record test: the difference is O(1/n).)"""
+    fs, wl = set_gv(rng)
+    n = [1, 2, 3, 5][i % 4]
+    K = 600 if ctx.tier == "quick" else 2000
+    n_pol = int(rng.integers(1, 3))
+    G, NF = float(rng.uniform(3, 40)), float(rng.uniform(3, 10))
+    shape = (2, n) if n_pol == 2 else (n,)
+    x = T.optical_signal(np.sqrt(10 ** rng.uniform(-6, -3)) * np.ones(shape, complex))
+    np.random.seed(int(rng.integers(2 ** 31)))
+    ctx.describe(n=n, K=K, n_pol=n_pol, G=G, NF=NF, fs=fs, wavelength=wl)
+    with core.quiet():
+        ases = np.array([D.EDFA(x, G, NF).noise for _ in range(K)])           # (K, 2, n)
+    want = 10 ** (NF / 10) * h_planck * (c_light / wl) * (10 ** (G / 10) - 1) * fs
+    ok_shape = ases.shape == (K, 2, n)
+    ctx.check("short.shape", ok_shape, f"EDFA noise of a {n}-sample record has shape {ases.shape[1:]}")
+    if ok_shape:
+        pk = np.sum(np.mean(np.abs(ases) ** 2, axis=-1), axis=-1)             # per-record total ASE power
+        ctx.check("short.mean_power", abs(pk.mean() - want) <= 6 * want * np.sqrt(1 / (2 * n * K)), f"mean ASE power over {K} records of {n} samples: {pk.mean() / want:.4f} x documented")
+        rv = pk.var() / (want ** 2 / (2 * n))
+        ctx.check("short.power_fluctuation", 0.3 <= rv <= 3.0, f"per-record ASE power of {n}-sample records has variance {rv:.3g} x P^2/(2n) over {K} calls: the realisation is not a free Gaussian draw", ratio=rv)
+        q = np.concatenate([ases.real.ravel(), ases.imag.ravel()]) / np.sqrt(want / 4)
+        kurt = float(np.mean(q ** 4) / np.mean(q ** 2) ** 2)
+        ctx.check("short.gaussian", abs(kurt - 3) <= 6 * np.sqrt(24 / q.size) + 0.05, f"pooled ASE quadratures of {n}-sample records have kurtosis {kurt:.3f} (Gaussian: 3)")
+        px, py = np.mean(np.abs(ases[:, 0]) ** 2, axis=-1), np.mean(np.abs(ases[:, 1]) ** 2, axis=-1)
+        rho = float(np.corrcoef(px, py)[0, 1])
+        ctx.check("short.pol_independent", abs(rho) <= 6 / np.sqrt(K), f"ASE powers of the two polarisations are correlated over {K} records of {n} samples (rho = {rho:.3f})")
+    ctx.case(("short", n, n_pol, round(G / 10)), sample=dict(n=n, K=K, n_pol=n_pol, G=G, NF=NF) if i < 4 else None)
+
+
 def w_two_grids(ctx, rng, i):
     """the same (G, NF) on two grids (fs, f0) and back: the ASE power must follow the grid in force each time."""
     N = 2 ** 15
@@ -210,6 +243,7 @@ WORKLOADS = [
     Workload("gain", w_gain, 2500, 60000, budget=400),
     Workload("statistical", w_statistical, 24, 160, budget=300),
     Workload("two_grids", w_two_grids, 12, 200, budget=300),
+    Workload("short_records", w_short_records, 8, 80, budget=300),
 ]
 
 
